@@ -418,11 +418,11 @@ def run_scan():
                 if v.__module__ != mod.__name__ or hasattr(v, '_fields'):
                     continue
                 for a, av in list(vars(v).items()):
-                    if a.startswith('__'):
+                    if a.startswith('__') and not isinstance(av, (types.FunctionType, staticmethod, classmethod)):
                         continue
                     if mutable(av):
                         live.append((mod.__name__, '%s.%s' % (v.__name__, a), type(av).__name__))
-                    if isinstance(av, (types.FunctionType, staticmethod, classmethod)):
+                    if isinstance(av, (types.FunctionType, staticmethod, classmethod)):       # __init__, __call__ included
                         live += [(mod.__name__, '%s.%s(default argument)' % (v.__name__, a), type(d_).__name__) for d_ in defaults_of(av) if mutable(d_)]
             elif isinstance(v, types.FunctionType):
                 if v.__module__ == mod.__name__:
@@ -460,7 +460,8 @@ def run_scan():
                     continue
                 return False
         return True
-    constants = [e for e in live if (e[0], e[1]) not in LIVE_OK and e[2] in ('dict', 'list', 'set', 'ndarray', 'tuple') and used_read_only(e[1].split('.')[-1])]
+    constants = [e for e in live if (e[0], e[1]) not in LIVE_OK and e[2] in ('dict', 'list', 'set', 'ndarray', 'tuple') and
+                 not e[1].endswith('(default argument)') and used_read_only(e[1].split('.')[-1])]
     live = [e for e in live if e not in constants]
     unexpected = [e for e in live if (e[0], e[1]) not in LIVE_OK]
     # (static form of the same scan; a container that is only ever read -- a constant table -- is not state)
